@@ -170,4 +170,19 @@ def shape_of(s, rec, seq, rule):
         if c.get("st0", "").startswith("TMP_") or c.get("st0") in ("SYNC_FLUSH", "FLUSH_WRITE_BUFFER"):
             if c.get("ai", 0) > 0: return ":entered-with-pending-marker-and-new-input"
         return ":other"
+    if s["api"] == 2 and rule.split("-")[0] in ("I2", "I3", "I5"):
+        # known shape: streaming isal_inflate, wrapper header with resume state (gzip FHCRC or >= 2 optional fields; zlib FDICT),
+        # and the header did not arrive in one piece (a call ended before any output was produced and before the header end)
+        inp = s["inp"]
+        multi = False
+        if s["wrap"] == 1 and len(inp) > 3:
+            flg = inp[3]; multi = bool(flg & 2) or bin(flg & 0x1c).count("1") >= 2
+        if s["wrap"] == 3 and len(inp) > 1:
+            multi = bool(inp[1] & 0x20)
+        header_calls = 0
+        for c in calls:
+            if c.get("p", 0) > 0 or c.get("ret", 0) != 0: break
+            if c.get("c", 0) > 0: header_calls += 1
+        if multi and (header_calls >= 1 and len(calls) >= 2 and calls[0].get("c", 0) < 400 and calls[0].get("p", 0) == 0 and calls[0].get("ret", 0) == 0):
+            return ":wrapper-header-with-resume-state-split-across-calls"
     return ""
